@@ -7,6 +7,7 @@ from fractions import Fraction
 from .. import common, tlc, traces, rngshim
 
 TWO53 = 2 ** 53
+WLARITH = {"Pow2N": "<- Pow2NRec", "SumOver": "<- SumOverRec"}       # WLCore's arithmetic parameters (see spec/WangLandau.tla)
 SEQS = ["KEKEKEGGKEKE", "EEEEKKKKGGSS", "KKEEKEKEGSGQ", "KEKEGEKEKGKEKE", "DRKEGSDRKEGS", "KKKKEEEEGGGG", "EKGKEKEGEKEK"]
 # (nbins, binmin, binmax) as exact decimals (tenths)
 REQUESTS = [(4, 0, 10), (2, 0, 10), (5, 0, 10), (3, 4, 10), (2, 5, 10), (3, 7, 10), (6, 2, 8), (3, 1, 4), (1, 5, 10), (10, 0, 10)]
@@ -157,7 +158,8 @@ def run(ctx):
     lc = common.load_repo(ctx.repo)
     if not getattr(lc.wang_landau, "_VERIF_ON", False):
         raise tlc.MachineryError("the Wang-Landau hook is not enabled (LOCALCIDER_VERIF=1 was set before import?)")
-    ctx.rule = ("(M) MC_WL: the Wang-Landau state machine over bins (3 configurations, every start bin, every proposal and every allowed "
+    ctx.rule = ("(proof) TLAPS ProofsWL: the bookkeeping invariant g - gprev = H * ln f and the stop rule are inductive for all configurations, "
+                "StaysInside; (M) MC_WL: the Wang-Landau state machine over bins (3 configurations, every start bin, every proposal and every allowed "
                 "decision, bounded depth): NeverLeavesWindow, CountRule, FlatRule, NoEarlyReset, ScheduleRule, GIncrement, StopRule; (V) "
                 "real runs of run_normal_WL through the guarded hook and a seeded recording RNG (12-14-mers, bin requests incl. "
                 "sub-ranges, flat-check periods, flatness criteria, convergence thresholds): every step / flat check / the returned array "
@@ -165,7 +167,11 @@ def run(ctx):
                 "exact kappa and bin, range test, ln acceptProb = min(0, g_old - g_new), accepted iff u < p (53-bit integers), g/H update, "
                 "flat checks exactly at multiples of the period, flat iff every window bin >= criterion x mean, stop iff f <= threshold. "
                 "non-trivial = accepted run with at least one flat check")
-    cfg = tlc.write_cfg(os.path.join(ctx.work, "MC_WL.cfg"), constants={"MaxDepth": ctx.pick(16, 26)}, constraints=["Depth"],
+    # unbounded (TLAPS, ProofsWL over WLCore): GIncrement and StopRule are inductive over WLStep / FlatCheck for every configuration,
+    # number of bins and run length; a step never leaves the window
+    from .. import tlaps
+    ctx.extra["tlaps_obligations_proved"] = tlaps.prove(ctx, "ProofsWL", ["WLCore"])
+    cfg = tlc.write_cfg(os.path.join(ctx.work, "MC_WL.cfg"), constants={"MaxDepth": ctx.pick(16, 26), "Pow2N": "<- Pow2NRec", "SumOver": "<- SumOverRec"}, constraints=["Depth"],
                         invariants=["GIncrement", "StopRule", "KBounded"],
                         properties=["NeverLeavesWindow", "CountRule", "FlatRule", "NoEarlyReset", "ScheduleRule"])
     res = tlc.run_tlc("MC_WL", cfg, ctx.work, timeout=7200, continue_=True)
@@ -211,7 +217,7 @@ def run(ctx):
     if tr:
         trs.append(tr)
     cases = {t["tid"]: (t.pop("case"), t.pop("finished")) for t in trs}
-    verdicts, _ = traces.validate(ctx, "Trace_WL", trs, spec="TSpec", invariants=["RunInvariants"], timeout=7200)
+    verdicts, _ = traces.validate(ctx, "Trace_WL", trs, spec="TSpec", invariants=["RunInvariants"], timeout=7200, constants=WLARITH)
     fin = 0
     for tr in trs:
         v = verdicts[tr["tid"]]
@@ -243,6 +249,6 @@ def replay(ctx, rec):
     tr = one_run(ctx, lc, 1, c["seq"], (c["nbins"], mn10, mx10), c["nflat"], round(c["flatcrit"] * 1000), cj, c["seed"], 60000)
     if tr:
         case = tr.pop("case"); tr.pop("finished")
-        verdicts, _ = traces.validate(ctx, "Trace_WL", [tr], spec="TSpec", invariants=["RunInvariants"])
+        verdicts, _ = traces.validate(ctx, "Trace_WL", [tr], spec="TSpec", invariants=["RunInvariants"], constants=WLARITH)
         if verdicts[1][0] == "reject":
             ctx.violation(verdicts[1][2], case, actual="rejected at event %d" % verdicts[1][1])
